@@ -119,6 +119,7 @@ def checker_factory(modname):
                 return (r, extra)
             oid = 'len=%s/%s' % (n, gname)
             try:
+                u0 = getattr(sw, 'unknowns', 0)
                 paths, status = sw.closure(p, run, budget=300, time_limit=30)
             except Unsupported as u:
                 sw.undecided.append(dict(n=n, why='%s: outside the subset: %s' % (gname, u)))
@@ -179,7 +180,7 @@ def checker_factory(modname):
                 ok = False
                 sw.finding('getter misbehaves', '%s: %s' % (gname, what.split(' (')[0]), input=x, opts=opts, getter=gname, today=today,
                            approx=ctx.approx or bool(getattr(ctx, 'soft', None)), real=d, reproduced=d is not None)
-            sw.obligations.append((oid, 'proved' if ok else 'refuted', '%d paths' % len(paths)))
+            sw.obligations.append((oid, ('undecided' if getattr(sw, 'unknowns', 0) > u0 else 'proved') if ok else 'refuted', '%d paths' % len(paths)))
         if gs and not sw.samples:
             sw.samples.append(dict(n=n, getters=[g for g, _ in gs]))
     return checker, gs
@@ -205,7 +206,7 @@ def bounded(rep, pairs, tier):
     t0 = time.time()
     n = 0
     for m, gname in pairs:
-        for x in corpus.valid_numbers(m, 6 if tier == 'quick' else 40):
+        for x in corpus.valid_numbers(m, 6 if tier == 'quick' else 40) + corpus.synth_valid(m, 30 if tier == 'quick' else 300, int(os.environ.get('VERIF_SEED', '0') or 0)):
             n += 1
             d = native_failure(m, gname, x, {}, None)
             if d:
@@ -241,9 +242,16 @@ def check(prop, tier, args):
         seen = {}
         for oid, st, detail in r['obligations']:
             key = 'C12/%s/%s' % (m, oid)
-            seen[key] = 'refuted' if st != 'proved' or seen.get(key) == 'refuted' else 'proved'
+            if st == 'refuted' or seen.get(key) == 'refuted':
+                seen[key] = 'refuted'
+            elif st == 'undecided' or seen.get(key) == 'undecided':
+                seen[key] = 'undecided'
+            else:
+                seen[key] = 'proved'
         und_g = {u['why'].split(':')[0] for u in r['undecided']}
         for key, st in seen.items():
+            if st == 'undecided':
+                rep.add(key, 'undecided', detail='solver unknown on a refutation candidate')
             if st == 'proved':
                 if key.rsplit('/', 1)[1] in und_g:
                     rep.add(key, 'undecided', detail='some accepting path of this length left the subset')
